@@ -132,3 +132,26 @@ def all_nodes(node, path=()):
     yield path, node
     for i, c in enumerate(node.children):
         yield from all_nodes(c, path + (i,))
+
+
+def deep_tree(T, levels=3000):
+    """a tree deeper than the interpreter's recursion limit, built iteratively: a call on it cannot complete
+    (RecursionError); used to interleave ABORTED calls in call histories"""
+    t = T.Word("x")
+    for _ in range(levels):
+        t = T.AndOperation(T.Group(t), T.Word("y"))
+    return t
+
+
+def aborted_call(fn, T, levels=3000):
+    """run fn(deep tree); returns the exception class name (or 'completed')"""
+    t = deep_tree(T, levels)
+    try:
+        fn(t)
+        return "completed"
+    except RecursionError:
+        return "RecursionError"
+    except Exception as e:  # noqa
+        return type(e).__name__
+    finally:
+        del t
